@@ -68,7 +68,8 @@ impl Property for C05Prop {
         match tape.weighted(&[3, 2, 2]) {
             0 => {
                 let built = case::build(tape, Profile::GENERAL).ok()?;
-                Some(json!({"kind": "program", "text": case::print(&built.program, Hide::None), "reps": tier.of(6, 24)}))
+                let files: serde_json::Map<String, Json> = case::import_files(&built.program).into_iter().map(|(n, t)| (n, json!(t))).collect();
+                Some(json!({"kind": "program", "text": case::print(&built.program, Hide::None), "reps": tier.of(6, 24), "files": files}))
             }
             1 => {
                 let cfg = TyCfg::full(tier.of(3, 4));
@@ -92,7 +93,7 @@ impl Property for C05Prop {
         let reps = case["reps"].as_u64().unwrap_or(6) as usize;
         match case["kind"].as_str().unwrap_or("") {
             "program" => {
-                let text = case["text"].as_str().unwrap_or("").to_string();
+                let text = case::materialise(case["text"].as_str().unwrap_or(""), case);
                 if has_order(&text) {
                     stats.nontrivial(&text);
                 }
